@@ -293,6 +293,29 @@ PROPS = {
         assumptions=["scratch files live under /verif/.work (ordinary file system)"],
         technique="runtime monitoring: exhaustive small-world enumeration against linear-scan / byte-array models",
     ),
+    "C19": dict(
+        level="exploration",
+        floor=50,
+        builds=["harness", "cli"],
+        legs=lambda tier, seed, scratch: [
+            dict(cmd="c19g", name="c19-generated-schema", cases=41),
+            dict(cmd="c19t", name="c19-parser-totality-grammar", cases=_q(tier, 1500, 30000), stall_s=20),
+            dict(cmd="c19x", name="c19-parser-totality-short-strings", cases=170, stall_s=60),
+        ] + __import__("c19_tool").legs(tier, seed, scratch),
+        rule="Leg 1: for every extra-column count 0..40: bed_autosql(rest) parses and its last declaration has 3+n fields; "
+        "through BigBedWrite (generated / supplied custom schema / default) the header field_count is 3+n / 3+n / 3 and "
+        "autosql() returns the text verbatim (default = BED3). Leg 2: grammar-based autoSql generator (simple/object/"
+        "table, index/unique/primary/auto, sized and named arrays, enum/set lists, nested declarations, comments with odd "
+        "characters, varying whitespace): the schema, EVERY character prefix, every token prefix, and every single-token "
+        "deletion, duplication and neighbour swap is parsed under catch_unwind with the cfg-hook divergence monitor in "
+        "the enum/set loops (more list values than input bytes proves non-termination) and the quiescence watchdog. Leg "
+        "3 (exhaustive): all strings of <= 5 tokens over {( ) [ ] , ; quote space enum set table x int}, concatenated "
+        "and space-separated, plus all 4-token strings inside a table body. Leg 4: the bedtobigbed binary with and "
+        "without --autosql for 13 (quick) / 41 (thorough) column counts, header read back through the library. "
+        "Non-trivial = every case; distinct by schema text / column count.",
+        assumptions=["field count is checked only for the single-table schemas bigBed uses; multi-declaration texts are used for totality only"],
+        technique="runtime monitoring: generator-vs-header oracle + totality monitors (panic, divergence hook, watchdog)",
+    ),
     "C07": dict(
         level="exploration",
         floor=50,
